@@ -47,7 +47,22 @@ def source_of(modname: str) -> str:
         return f.read()
 
 
+def _decorated(qualname):
+    """'merge@MutatorMerger.merger(otBase.ValueRecord)' -> ('merge', 'MutatorMerger.merger(otBase.ValueRecord)'):
+    one of several same-named module-level functions, told apart by its decorator (fontTools.varLib.merger)"""
+    name, _, deco = qualname.partition("@")
+    return name, deco
+
+
 def resolve(ns, qualname: str):
+    if "@" in qualname:
+        # registered handler: <Class>.merger(<key>) stores the function in <Class>.mergers[<key>]
+        _, deco = _decorated(qualname)
+        head, _, arg = deco.partition("(")
+        cls = resolve(ns, head.rsplit(".", 1)[0])
+        scope = ns if isinstance(ns, dict) else vars(ns)
+        key = eval(deco[len(head) + 1:-1], dict(scope))
+        return cls.mergers[key[0] if isinstance(key, tuple) else key][None]
     obj = ns
     for part in qualname.split("."):
         obj = obj[part] if isinstance(obj, dict) else getattr(obj, part)
@@ -75,6 +90,13 @@ def real(modname: str, qualname: str):
 
 
 def find_def(tree: ast.Module, qualname: str):
+    if "@" in qualname:
+        name, deco = _decorated(qualname)
+        want = ast.dump(ast.parse(deco, mode="eval").body)
+        for child in tree.body:
+            if isinstance(child, ast.FunctionDef) and child.name == name and any(ast.dump(d) == want for d in child.decorator_list):
+                return child
+        return None
     node = tree
     for part in qualname.split("."):
         for child in node.body:
